@@ -551,6 +551,10 @@ func run(c *core.Ctx) {
 	for _, n := range ladder {
 		if c.Mine(base) {
 			k.ladderCase(0, n, big)
+			if n >= 1<<(maxK-1) {
+				// the top rungs also with the process limited to three processors (default two)
+				c.WithProcs(3, func() { k.ladderCase(0, n, big) })
+			}
 		}
 		base++
 	}
